@@ -88,9 +88,9 @@ PROPS = {
 
     'C04': _p(lambda t: ['contract', 'reject', 'finish', 'bound'],
               rule='a case is a (state-building prefix, probe call) history enumerated by TLC from MCMuxide (scenarios contract/reject/finish); non-trivial when some call is rejected or >= 2 calls are accepted'),
-    'C05': _p(lambda t: ['reject'],
+    'C05': _p(lambda t: ['reject', 'frag'],
               rule='a case is a history pair (H, H minus its rejected calls), both executed and compared; non-trivial when H contains a rejected call followed by an accepted call or a finish'),
-    'C06': _p(lambda t: ['finish', 'av', 'contract'],
+    'C06': _p(lambda t: ['finish', 'av', 'contract', 'sink'],
               rule='a case is a history with >= 1 finish attempt and >= 1 other call'),
 
     'C01': _p(lambda t: ['av'],
